@@ -55,7 +55,10 @@ tests), in two different functions/mechanisms, each of which
      a step's environment as a prefix of its first word instead of exporting it, saving the
      configuration after instead of before the build script ran, an early return placed before
      the DESTDIR step, json.dumps(ensure_ascii=False), one dict shared by two modes via
-     dict.fromkeys, lstrip()/rstrip() with a character set where a prefix was meant.
+     dict.fromkeys, lstrip()/rstrip() with a character set where a prefix was meant,
+     moving .PHONY from a stamp file to the outputs, a visited-set in ForwardOptions.recurse,
+     re-detecting the back end's version on regenerate, a try/finally that saves a map after a
+     failure, a fast path that skips copying or lexing, wrapping long lines of a build file.
      Do not hand in another one of those.  Look deeper:
      state carried from one run to the next (caches, saved files, time stamps), error and
      abort paths, features that are rarely combined, the second back end, tool-chain or
